@@ -198,7 +198,7 @@ func (a *allocation) createPermission(perm *permission, addr net.Addr) error {
 			// deleting it here would leave the permission, once granted, out
 			// of the map and therefore out of the periodic refresh.
 			if !errors.Is(err, errTryAgain) {
-				a.permMap.delete(addr)
+				a.permMap.deleteIf(addr, perm)
 			}
 
 			return err
@@ -217,7 +217,7 @@ func (a *allocation) forgetIdlePermission(perm *permission, addr net.Addr) {
 	defer perm.mutex.Unlock()
 
 	if perm.state() == permStateIdle {
-		a.permMap.delete(addr)
+		a.permMap.deleteIf(addr, perm)
 	}
 }
 
@@ -242,11 +242,7 @@ func (c *UDPConn) WriteTo(payload []byte, addr net.Addr) (int, error) { //nolint
 	}
 
 	// Check if we have a permission for the destination IP addr
-	perm, ok := c.permMap.find(addr)
-	if !ok {
-		perm = &permission{}
-		c.permMap.insert(addr, perm)
-	}
+	perm := c.permMap.findOrCreate(addr)
 
 	for range maxRetryAttempts {
 		// c.createPermission() would block, per destination IP (, or perm),
